@@ -323,7 +323,8 @@ class Kernel:
             parts = identities + parts
         if stream:
             # _LOGGER.debug("send %s: %s", msg_type, parts)
-            for this_stream in stream if isinstance(stream, set) else {stream}:
+            # walk a snapshot: subscribers connect and hang up while a broadcast is suspended in a send
+            for this_stream in list(stream) if isinstance(stream, set) else [stream]:
                 await this_stream.send_multipart(parts)
 
     async def shell_handler(self, shell_socket, wire_msg):
